@@ -460,6 +460,7 @@ func c17Gen(r *rand.Rand, tier string) []Case {
 		n = 400
 	}
 	var out []Case
+	lateRoots := 0
 	for i := 0; i < n; i++ {
 		w := scWellFormed(r, 1+r.Intn(3))
 		// deprecations on fields and enum values so that includeDeprecated matters
@@ -544,6 +545,51 @@ func c17Gen(r *rand.Rand, tier string) []Case {
 					variant = -1
 					break
 				}
+			}
+		}
+		if variant >= 0 && (lateRoots == 0 || r.Intn(2) == 0) {
+			// a Mutation / Subscription type arrives in a later load together with an extension of an
+			// earlier type (no schema block: the operation roots follow the type names)
+			hasSchema := false
+			for _, it := range w {
+				if it.K == kSchema {
+					hasSchema = true
+				}
+			}
+			for j := range w {
+				if hasSchema || w[j].K != kObject || w[j].Ext || (w[j].N != 11 && w[j].N != 12) {
+					continue
+				}
+				var base []scItem
+				for k := range w {
+					if k != j && !(w[k].Ext && w[k].N == w[j].N) {
+						base = append(base, w[k])
+					}
+				}
+				var late []scItem
+				for k := range w {
+					if k == j || (w[k].Ext && w[k].N == w[j].N) {
+						late = append(late, w[k])
+					}
+				}
+				referred := false
+				for k := range base {
+					if scRefers(base[k], w[j].N) {
+						referred = true
+					}
+				}
+				for k := range base {
+					if !referred && base[k].K == kObject && !base[k].Ext && base[k].N == 10 {
+						late = append(late, scItem{Ext: true, K: kObject, N: 10, Fields: []scField{{N: 689, T: scT{N: 0}}}})
+						docs = [][]scItem{base, late}
+						w = append(scCopy(w), late[len(late)-1])
+						tags = append(tags, "partitioned", "operation-root-in-a-later-load-with-an-extension")
+						lateRoots++
+						variant = -1
+						break
+					}
+				}
+				break
 			}
 		}
 		switch variant {
@@ -636,4 +682,35 @@ func c17Gen(r *rand.Rand, tier string) []Case {
 
 func init() {
 	props["C17"] = &Prop{Gen: c17Gen, Exec: inExec, Valid: inValid}
+}
+
+// scRefers: the item mentions type n (as a field, argument or input-field type, a union member)
+func scRefers(it scItem, n int) bool {
+	base := func(t scT) int {
+		for t.Of != nil {
+			t = *t.Of
+		}
+		return t.N
+	}
+	for _, m := range it.Members {
+		if m == n {
+			return true
+		}
+	}
+	for _, f := range it.Fields {
+		if base(f.T) == n {
+			return true
+		}
+		for _, a := range f.Args {
+			if base(a.T) == n {
+				return true
+			}
+		}
+	}
+	for _, a := range it.Inputs {
+		if base(a.T) == n {
+			return true
+		}
+	}
+	return false
 }
